@@ -312,6 +312,11 @@ func runShard(bin, prop, tier, fl string, shard, n int, seed int64, budget strin
 	sideF := filepath.Join(work, tag+".side")
 	os.Remove(outF)
 	os.Remove(sideF)
+	if old, _ := filepath.Glob(filepath.Join(work, tag+".race.*")); len(old) > 0 {
+		for _, f := range old {
+			os.Remove(f)
+		}
+	}
 	args := []string{"-prop", prop, "-tier", tier, "-shard", strconv.Itoa(shard), "-nshards", strconv.Itoa(n), "-seed", strconv.FormatInt(seed, 10),
 		"-out", outF, "-side", sideF, "-budget", budget, "-flavour", fl}
 	if only != "" {
@@ -335,7 +340,7 @@ func runShard(bin, prop, tier, fl string, shard, n int, seed int64, budget strin
 	if memKB > 0 {
 		e = append(e, "GOMEMLIMIT=1GiB")
 	}
-	if strings.HasPrefix(fl, "sched") {
+	if fl == "sched" {
 		e = append(e, "GOGC=400")
 	}
 	if fl == "sched-race" {
@@ -356,7 +361,7 @@ func runShard(bin, prop, tier, fl string, shard, n int, seed int64, budget strin
 			so.err = "bad result json: " + jerr.Error()
 		}
 	}
-	if err != nil || so.res == nil {
+	if so.res == nil {
 		if sb, e2 := os.ReadFile(sideF); e2 == nil {
 			so.crash = string(sb)
 		}
